@@ -20,7 +20,7 @@ var c15Book = absBook{
 	{"r1", []absIng{{"cal", 2}, {"fat", -0.5}}},
 	{c15Long, []absIng{{c15LongEl, 1.5}, {"cal", -1}}},
 }
-var c15Foods = []string{"r1", c15Long, "ел 2", "u", "w/tea"}
+var c15Foods = []string{"r1", c15Long, "ел 2", "m&m's <x>+y \"z\" long enough to be shortened", "w/tea"}
 var c15Qty = []float64{1, -2, 0}
 
 var colTokRe = regexp.MustCompile("(\x1b\\[3[12]m)?( *-?[0-9]+\\.[0-9]{2})(\x1b\\[0m)?")
